@@ -12,7 +12,9 @@ RULE = ("ops normal/student/chi/nd/ks; alpha: fixed grid 0.0005..0.9995 (accurac
         "lower critical values p in (0.5, 0.9995] x n = 3..8 (fixed + seeded); NormalDistribution x in [-40,40] with every branch "
         "region populated: power series [-2.32, 3.5], continued fraction WITH the maxd/mind rescaling [-2.80, -2.32) (counted by a "
         "replica of the loop; inconclusive if fewer than 20 rescaled cases), continued fraction without rescaling, density "
-        "underflow |x| > 38.6, branch points 0, +-2.32, +-3.5; distinct = distinct op line; non-trivial = alpha != 0.5 / x != 0")
+        "underflow |x| > 38.6, branch points 0, +-2.32, +-3.5; fine grids (49 points, relative step 2.5e-9) across the Chi_square "
+        "polynomial switch |Normal(p)| = (n-1)/4 for n = 3..20, both signs, and 200 points (relative step 1.35e-6) at alpha = 1e-12 "
+        "for Normal (upward steps counted into the evidence; oracle failures once the findings are registered); distinct = distinct op line; non-trivial = alpha != 0.5 / x != 0")
 TRUSTED = ["mpmath 30-digit erfc / regularised incomplete beta and gamma (quadrature of the density for dof > 5000) as the "
            "reference distribution functions (tools/gen/c17_ref.py, run with python3-vt)"]
 MODELLED = ["libm exp/log/pow/sqrt/sin/cos (shared by model execution and C++)",
@@ -36,13 +38,18 @@ LEVEL_TEXT = ("PARTIAL. Lean 4 theorems over R about a line-by-line model of sta
               "(positive denominators, decreasing positive convergents, gap <= 6 e0/((k+1)(k+2)(k+3))), the loop stops within 1e5 "
               "passes so every fuel >= 1e5 gives the same value, range of the computed tail, power series = partial sum with a "
               "geometric truncation bound (its exit test never fires over R), D(-x) = 1 - D(x) where both signs take the same branch; "
-              "the Chi_square selector depends on |t| only. Model tied to the C++ by translation of the fragments + correspondence at "
+              "the Chi_square selector depends on |t| only. Chi_square(p, n), n >= 3, equals n*chiZ(Normal p)^3 (the probability enters "
+              "through Normal(p) only); both regenerated polynomials are strictly increasing in t/sqrt(n) on [-7/4, 7/4] for every "
+              "n >= 3 (so Chi_square is monotone in Normal(p) inside the window t^2 <= 49n/16 - all |t| <= 3.5 for n >= 4 - and "
+              "inside one piece of the selector); junction inequalities for n = 4, 16; NEG theorems: a downward step at the junction "
+              "t = -2 for n = 9 (finding C17-F2, replayed: n = 7, 8, 9) and the turned polynomial in the extreme tail (C17-F1). Model tied to the C++ by translation of the fragments + correspondence at "
               "Float (bit-identical in practice). "
               "The ACCURACY clauses (1e-6 / 5e-4 / 5e-3), MONOTONICITY beyond the closed forms and NormalDistribution(Normal(a)) = 1 - a "
               "are NOT proved (Mathlib has no verified enclosures of the normal/Student/chi-square distribution functions): they are "
               "searched on every run against mpmath references on the grid stated in the rule.")
-LEVEL_NOTE = ("partial: accuracy, monotonicity (Hill branches, chi-square n >= 3, iterated Normal), Phi o Normal = id are explored "
-              "(mpmath), not proved. The limit of the series / continued fraction is not identified with Phi. Second Hill divisor "
+LEVEL_NOTE = ("partial: accuracy, monotonicity of Normal itself (hence of chi-square n >= 3 in p, proved only relative to it and "
+              "piecewise) and of the Hill branches, Phi o Normal = id are explored (mpmath; round 9: fine-grid probes at the "
+              "chi-square polynomial switch and below 1e-9 for Normal - findings C17-F2, C17-F3 in the report), not proved. The limit of the series / continued fraction is not identified with Phi. Second Hill divisor "
               "only for N <= 10000. D(-x) = 1 - D(x) is exact only outside 2.32 < |x| <= 3.5.")
 TECHNIQUE = ("Lean 4 proof (closed forms, symmetry, monotone closed forms, definedness, loop invariant/termination/truncation, "
              "rescale invariance) + translator for the decision fragments + model/implementation correspondence + mpmath reference search")
